@@ -49,6 +49,15 @@ CHECKS = {
         note="Trusted: reference canonical encoder in harness/c16.py+refs.py, struct/int shims (model-based differential vs the real "
              "library), z3. str fields ASCII; float fields unset; zero-length values outside.",
         design="DESIGN.md section 5 C16"),
+    "C14": dict(
+        text="The real check_convert_value runs over a solver-level fixed-point model of Decimal (exact constructor, per-operation "
+             "rounding to ctx.prec digits decided by decade forks, context rounding modes): for each configuration of a grid of "
+             "(format, min, max, step) and EVERY input in the stated range (all integers, or all decimals n/10^9) z3 discharges "
+             "type, on-grid, nearest, tie-upward and in-range obligations - exact for integer formats, six significant digits for "
+             "fractional ones. Garbage / non-finite inputs and bool spellings: concrete side check on the real function.",
+        note="Trusted: the Decimal model (cross-checked against the real decimal module on every sampled path by the differential), "
+             "float(Decimal) as identity, z3. Binary floats with expansions longer than 9 fractional digits are outside.",
+        design="DESIGN.md section 5 C14"),
 }
 
 NOT_APPLICABLE = {
